@@ -37,7 +37,7 @@ def run_cmd(args, timeout=1800):
 
 # name -> (kind, args(tier), domain text, property-specific failure message)
 SPECS = {
-    "fmt": ("Ec", lambda t: ["fmt"], "all 256 bytes x {#XX, XX, \\ooo}: discharges the concrete contracts of the R6 formatting stubs"),
+    "fmt": ("Ec", lambda t: ["fmt"], "all 256 bytes x {#XX, XX, \\ooo} and all 484 hex-digit pairs through from_str_radix: discharges the concrete contracts of the R6 formatting stubs and of lexer::axiom_hex2u"),
     "a85hex": ("Eb", lambda t: ["a85hex", "6" if t == "thorough" else "4"], "ASCII85/ASCIIHex: no panic, limit respected, bounded == unbounded"),
     "a85hex-roundtrip": ("Eb", lambda t: ["a85hex-roundtrip", "5" if t == "thorough" else "3"], "ASCII85/ASCIIHex: decode(encode_ref(x)) == x"),
     "enc-tables": ("Ec", lambda t: ["enc-tables"], "TextEncoding::{encode_strict, encode, decode} on every one-char string / one-byte slice vs Annex D"),
